@@ -2,15 +2,16 @@ import sys, os
 sys.path.insert(0, os.path.join(VERIF, 'harness'))
 from typed_common import *
 HARNESSES = []
-Q = {('T_Seq', 'der'), ('T_Seq', 'oer'), ('T_Seq', 'uper'), ('T_SeqOf', 'der'), ('T_Cho', 'oer'), ('T_Oct', 'der'), ('T_SetOf', 'der'), ('T_Enum', 'der')}
-for t in ['T_Seq', 'T_SeqOf', 'T_Cho', 'T_Oct', 'T_SetOf', 'T_Enum', 'T_Bits', 'T_Int8']:
+Q = {('T_SeqX1', 'oer'), ('T_Seq', 'der'), ('T_Seq', 'oer'), ('T_Seq', 'uper'), ('T_SeqOf', 'der'), ('T_Cho', 'oer'), ('T_Oct', 'der'), ('T_SetOf', 'der'), ('T_Enum', 'der')}
+for t in ['T_Seq', 'T_SeqX1', 'T_SeqOf', 'T_Cho', 'T_Oct', 'T_SetOf', 'T_Enum', 'T_Bits', 'T_Int8']:
     for k in ('der', 'oer', 'uper'):
         if (k == 'uper' and t in UPER_TOO_COSTLY) or (k == 'oer' and t in OER_TOO_COSTLY):
             continue
-        HARNESSES.append(typed(H, 'reent_%s_%s' % (t, k), 'typed/reentrancy.c', t, k, snapshot=True,
-                               tiers=('quick', 'thorough') if (t, k) in Q else ('thorough',),
-                               functions=['%s encode, decode, asn_check_constraints, free of %s' % (k, t)],
-                               inputs='two values, 4 arbitrary octets; snapshot of every mutable file-scope static object of the linked units'))
+        for ops, what in (('OPS_ENC', 'validate + encode'), ('OPS_DEC', 'decode arbitrary octets + decode valid encoding + free'), ('OPS_SEQ', 'encode / unrelated calls / encode again')):
+            HARNESSES.append(typed(H, 'reent_%s_%s_%s' % (ops[4:].lower(), t, k), 'typed/reentrancy.c', t, k, snapshot=True, defines=['-D' + ops],
+                                   tiers=('quick', 'thorough') if (t, k) in Q else ('thorough',),
+                                   functions=['%s: %s of %s' % (k, what, t)],
+                                   inputs='two values, 4 arbitrary octets; snapshot of every mutable file-scope static object of the linked units'))
 ASSUMPTIONS = ['reduction: no write to static storage => calls on distinct structures are race-free and independent (malloc/errno thread-safety is libc\'s contract)',
                'a write that stores the value already present, or write-then-restore within one call, is invisible to a snapshot',
                'function-local static objects cannot be named from C and are not snapshotted: they are listed in the evidence']
